@@ -430,7 +430,7 @@ def _run(ctx, tt, ttmps, trace, mpmath):
                     ctx.count(None, False, 'slice')
 
     # ---- 1. networks --------------------------------------------------------------------------
-    n_nets = ctx.pick(420, 3000)
+    n_nets = ctx.pick(900, 6000)
     n_exh = ctx.pick(10, 60)
     sizes = [(R, C) for R in range(1, 6) for C in range(1, 7)]
     for it in range(n_nets):
@@ -457,6 +457,8 @@ def _run(ctx, tt, ttmps, trace, mpmath):
             # the two independent oracles disagree: the harness is wrong, not the implementation
             raise RuntimeError('einsum and brute-force oracles disagree on %s' % json.dumps(rep0))
         want_s = 'S ' + hexint(ev_fr, tscale)
+        add('netwf (theorem hypothesis) holds', 'wf %d %s' % (R, enc), '1', rep0)
+        add('netwf (theorem hypothesis) holds, transposed', 'wf %d %s' % (C, net.T().enc()), '1', rep0)
         if spec_cost(net) <= 60000:
             add('value(spec)', 'value %d %s' % (R, enc), hexint(ev_fr, tscale), rep0)
         ctx.count(key, ntv, 'net %dx%d%s' % (R, C, '' if all(m is not None for row in net.mant for m in row) else ' padded'),
@@ -710,7 +712,7 @@ def _run(ctx, tt, ttmps, trace, mpmath):
         ctx.count(None, False, 'as_scalar')
 
     # ---- 3. vanishing tolerance: positive real entries, real truncation runs --------------------------
-    n_tol = ctx.pick(120, 900)
+    n_tol = ctx.pick(200, 2500)
     for it in range(n_tol):
         R, C = rng.randint(1, 4), rng.randint(2, 5)
         occ = gen_occ(rng, R, C, rng.random() < 0.6)
